@@ -242,6 +242,16 @@ def init_contract():
                                           "package_name_override": opt("package_name_override"),
                                           "package_version_override": opt("package_version_override"),
                                           "output_path": out, "meta_type": meta, "field_prefix": "field_"})
+        # a Config field the contract does not know (added later) has the value its declaration gives it: a default that is
+        # computed when the class is defined (e.g. a directory captured at import time) is NOT the state at generation time
+        from openapi_python_client.config import Config as _RealConfig
+        import attr as _attr
+        for a in getattr(_RealConfig, "__attrs_attrs__", ()):
+            if a.name in config.attrs or a.default is _attr.NOTHING or isinstance(a.default, _attr.Factory):
+                continue
+            d = a.default
+            config.attrs[a.name] = SPath((f"<{a.name}: value fixed when openapi_python_client.config was imported>",), trace, world) \
+                if isinstance(d, pathlib.PurePath) else d
         openapi = SOpaque("openapi", attrs={"title": SStr(z3.Const("title", S)), "version": SStr(z3.Const("doc_version", S)),
                                             "endpoint_collections_by_tag": SOpaque("collections")})
         self = SObj(opc.Project, {})
